@@ -98,7 +98,7 @@ Proof.
     cbn [heap_of set_reg set_heap mk]. eapply TblInv_same_tables; [|exact Htbl].
     apply same_tables_setb with (b := b); auto.
   - (* counters *)
-    destruct Hcnt as [C1 C2 C3 C4 C5]. split; cbn [heap_of set_reg set_heap mk log].
+    destruct Hcnt as [C1 C2 C3 C4 C5 C6]. split; cbn [heap_of set_reg set_heap mk log].
     + intros y by' m Hy Hm. rewrite HW. rewrite Hnth in Hy.
       destruct (Nat.eqb_spec o y) as [<-|Hne].
       * injection Hy as <-. rewrite Hs' in Hm. injection Hm as <-. rewrite (C1 o b n Hb Hs). reflexivity.
@@ -117,6 +117,8 @@ Proof.
       destruct (C5 y Hy') as (E1 & E2 & E3 & E4 & E5).
       assert (y <> o) by (intros ->; congruence). destruct (Hoth y H) as [-> ->].
       repeat split; try lia; assumption.
+    + intros y by' Hy Hp. rewrite Hnth in Hy. destruct (Nat.eqb_spec o y) as [<-|Hne]; [|apply (C6 y by' Hy Hp)].
+      pose proof (C6 o b Hb Hp) as E. congruence.
   - (* no dangling handle *)
     intros y Hy. rewrite Hheld in Hy. cbn [heap_of set_reg set_heap mk]. rewrite Hnth.
     destruct (Nat.eqb_spec o y) as [<-|Hne].
